@@ -82,7 +82,7 @@ func (r *Run) genVerify(schemaOK func(*basis.Schema) bool, opts []basis.Options,
 		names = append(names, j.Name)
 	}
 	r.Coverage["basis_packages"] = names
-	r.Assumptions["the quantifier over schemas is bounded to the enumerated basis (DESIGN section 4); maps are not yet covered by the reference functions"] = true
+	r.Assumptions["the quantifier over schemas is bounded to the enumerated basis (DESIGN section 4); records with maps have no reference encoding (Go map order): their decoders are under safety contracts only by the reference functions"] = true
 	r.Assumptions["reference lemmas (size >= 0, prefix sums monotone) hold by induction on well-formed heaps; the induction itself is not machine-checked"] = true
 	r.Assumptions["encodings larger than 2^62 bytes (Size) / 2^47 bytes (MarshalBebop) are excluded by precondition"] = true
 	r.Assumptions["the destination buffer does not alias byte arrays of the value being encoded"] = true
@@ -97,7 +97,7 @@ func checkC08(r *Run) error {
 	if err != nil {
 		return err
 	}
-	if err := r.decoders(nonMap, []basis.Options{{}}, func(key string) bool {
+	if err := r.decoders(nil, []basis.Options{{}}, func(key string) bool {
 		return strings.Contains(key, "DecodeBebop") || isMakeStream(key)
 	}); err != nil {
 		return err
@@ -170,25 +170,25 @@ func (r *Run) verifyIohelp(filter func(key string) bool) error {
 }
 
 func checkC07(r *Run) error {
-	err := r.decoders(nonMap, r.optsFor(false), nil)
+	err := r.decoders(nil, r.optsFor(false), nil)
 	if err == nil {
 		// the byte-slice readers the decoders call
 		err = r.verifyIohelp(func(k string) bool { return strings.Contains(k, ".Read") && strings.Contains(k, "Bytes") })
 	}
 	r.Explanation = "Precondition-free sweep: every index, slice, nil dereference, type assertion, callee precondition and make() in UnmarshalBebop, DecodeBebop and the Make* wrappers of the basis is an obligation discharged for an arbitrary buffer / an arbitrary reader with arbitrary faults (loops carry cursor invariants derived from the schema description; parents rely on the proved bound Size(decoded) <= len(buf) of nested decoders). Memory: every make() on the byte path requests at most 64 bytes per byte of input still unread (obligation [ALLOC] at each allocation site). Termination: range loops are bounded by their (checked) counts and the message dispatch loop consumes at least one byte per iteration (cursor invariant); not discharged as a separate decreases obligation. Stream path: allocation from a count read off the stream cannot be checked against input that has not arrived (design-level; see DESIGN.md findings)."
-	r.Coverage["not_covered"] = "map-typed fields; MustUnmarshalBebop (documented unchecked variant); allocation bound on the stream path"
+	r.Coverage["not_covered"] = "MustUnmarshalBebop (documented unchecked variant); allocation bound on the stream path; records with map-typed fields are covered for safety and allocation, without the Size bound"
 	return err
 }
 
 // C06 (safety half): truncated input never crashes; the error half needs the decode-functional contracts.
 func checkC06(r *Run) error {
-	err := r.decoders(nonMap, r.optsFor(false), nil)
+	err := r.decoders(nil, r.optsFor(false), nil)
 	if err == nil {
 		// every reader of the runtime, byte-slice and stream, and the sticky-error reader itself
 		err = r.verifyIohelp(func(k string) bool { return strings.Contains(k, ".Read") || strings.Contains(k, "ErrorReader") })
 	}
 	r.Explanation = "A strict prefix of a valid encoding is a particular arbitrary byte string / a particular reader that fails with EOF at some offset: the no-panic, bounded-allocation and fault-latching obligations of C07/C08 are discharged for all of them at once (the cut point is universally quantified by the unconstrained buffer and by the assumed io.Reader contract). That a strict prefix yields a NON-NIL error (rather than a nil error with a partial value) needs the decode-functional contracts (input holds wire(v0) up to k < size) and is not yet claimed; stream side: a short read always latches (C20) and DecodeBebop returns the latched error (LATCH)."
-	r.Coverage["not_covered"] = "the 'returns a non-nil error' half on the byte path (pending decode-functional contracts); map-typed fields"
+	r.Coverage["not_covered"] = "the 'returns a non-nil error' half on the byte path (needs the decode-functional contracts)"
 	return err
 }
 
